@@ -683,3 +683,297 @@ Proof.
         cbn [bind]. rewrite bto_app, bfrom_app. destruct ukid, ug; reflexivity.
       * cbn [bind app]. destruct ukid, ug; reflexivity.
 Qed.
+
+(* ================================================================== inner message codec *)
+
+(* ------------------------------------------------------------------ inner message codec round trip *)
+Lemma ext_roundtrip v d ext rest : write_extended_field_value v = Ok (d, ext) ->
+  read_extended_field_value d (ext ++ rest) = Ok (v, rest) /\ 0 <= d <= 14.
+Proof.
+  unfold write_extended_field_value.
+  destruct ((v >=? 0) && (v <? 13)) eqn:E1.
+  { intros H. injection H as <- <-. unfold read_extended_field_value. rewrite E1. split; [reflexivity|lia]. }
+  destruct ((v >=? 13) && (v <? 269)) eqn:E2.
+  { unfold to_bytes_big. replace ((v - 13 <? 0) || (2 ^ (8 * 1) <=? v - 13)) with false by (change (2 ^ (8 * 1)) with 256; lia).
+    cbn [bind]. intros H. injection H as <- <-. unfold read_extended_field_value.
+    change ((13 >=? 0) && (13 <? 13)) with false. change (13 =? 13) with true. cbv iota.
+    cbn [app].
+    replace (blen (((v - 13) mod 256) :: rest) <? 1) with false by (rewrite blen_cons; pose proof (blen_nonneg rest); lia).
+    rewrite bget_cons0. cbn [bind]. split; [|lia]. apply f_equal. apply f_equal2; [lia|reflexivity]. }
+  destruct ((v >=? 269) && (v <? 65805)) eqn:E3; [|intros H; discriminate H].
+  unfold to_bytes_big. replace ((v - 269 <? 0) || (2 ^ (8 * 2) <=? v - 269)) with false by (change (2 ^ (8 * 2)) with 65536; lia).
+  cbn [bind]. intros H. injection H as <- <-. unfold read_extended_field_value.
+  change ((14 >=? 0) && (14 <? 13)) with false. change (14 =? 13) with false. change (14 =? 14) with true. cbv iota.
+  replace (blen ([((v - 269) / 256) mod 256; (v - 269) mod 256] ++ rest) <? 2) with false
+    by (rewrite blen_app; change (blen [((v - 269) / 256) mod 256; (v - 269) mod 256]) with 2; pose proof (blen_nonneg rest); lia).
+  rewrite bto_app_n, bfrom_app_n by reflexivity.
+  unfold from_bytes_big. cbn [from_bytes_big_acc]. split; [|lia]. apply f_equal. apply f_equal2; [lia|reflexivity].
+Qed.
+
+Definition nib_ok (d l : Z) : bool :=
+  let b := Z.shiftl (Z.land d 15) 4 + Z.land l 15 in
+  negb (b =? 255) && (Z.shiftr (Z.land b 240) 4 =? d) && (Z.land b 15 =? l).
+Definition range15 : list Z := map Z.of_nat (seq 0 15).
+Lemma nib_all : forallb (fun d => forallb (fun l => nib_ok d l) range15) range15 = true.
+Proof. vm_compute. reflexivity. Qed.
+Lemma in_range15 d : 0 <= d <= 14 -> In d range15.
+Proof. intros H. unfold range15. apply in_map_iff. exists (Z.to_nat d). split; [lia|]. apply in_seq. lia. Qed.
+Lemma nibbles d l : 0 <= d <= 14 -> 0 <= l <= 14 ->
+  let b := Z.shiftl (Z.land d 15) 4 + Z.land l 15 in
+  (b =? 255) = false /\ Z.shiftr (Z.land b 240) 4 = d /\ Z.land b 15 = l.
+Proof.
+  intros Hd Hl. pose proof nib_all as H. rewrite forallb_forall in H. specialize (H d (in_range15 d Hd)).
+  rewrite forallb_forall in H. specialize (H l (in_range15 l Hl)). unfold nib_ok in H. cbv zeta in *.
+  apply andb_prop in H as [H H3]. apply andb_prop in H as [H1 H2].
+  repeat split; [destruct (_ =? 255); [discriminate|reflexivity]|lia|lia].
+Qed.
+
+Definition opt_byte (delta length : Z) : Z := Z.shiftl (Z.land delta 15) 4 + Z.land length 15.
+Lemma encode_options_cons prev num v rest : encode_options prev ((num, v) :: rest) =
+  ('(delta, extended_delta) <- write_extended_field_value (num - prev) ;;
+   '(length, extended_length) <- write_extended_field_value (blen v) ;;
+   r <- encode_options num rest ;;
+   Ok (opt_byte delta length :: extended_delta ++ extended_length ++ v ++ r)).
+Proof. reflexivity. Qed.
+Lemma decode_options_cons f num b rest : decode_options (S f) num (b :: rest) =
+  if b =? 255 then Ok ([], rest) else
+  '(delta, rawdata1) <- read_extended_field_value (Z.shiftr (Z.land b 240) 4) rest ;;
+  '(length, rawdata2) <- read_extended_field_value (Z.land b 15) rawdata1 ;;
+  if blen rawdata2 <? length then Raise UnparsableMessage else
+  r <- decode_options f (num + delta) (bfrom rawdata2 length) ;;
+  Ok ((num + delta, bto rawdata2 length) :: fst r, snd r).
+Proof. reflexivity. Qed.
+Definition payload_tail (pl : list Z) : list Z := match pl with [] => [] | _ => 255 :: pl end.
+Theorem options_roundtrip os : forall prev e pl fuel,
+  encode_options prev os = Ok e -> (length os <= fuel)%nat ->
+  decode_options fuel prev (e ++ payload_tail pl) = Ok (os, pl).
+Proof.
+  induction os as [|[num v] rest IH]; intros prev e pl fuel He Hf.
+  - cbn in He. inv He. cbn [app]. destruct pl as [|x pl]; destruct fuel; cbn; reflexivity.
+  - rewrite encode_options_cons in He.
+    apply bind_ok_inv in He as [[d dext] [Hd He]]. apply bind_ok_inv in He as [[l lext] [Hl He]].
+    apply bind_ok_inv in He as [r [Hr He]]. injection He as <-.
+    destruct fuel as [|f]; [cbn in Hf; lia|].
+    destruct (ext_roundtrip _ _ _ (lext ++ v ++ r ++ payload_tail pl) Hd) as [Rd Bd].
+    destruct (ext_roundtrip _ _ _ (v ++ r ++ payload_tail pl) Hl) as [Rl Bl].
+    destruct (nibbles d l Bd Bl) as (N1 & N2 & N3). cbv zeta in N1, N2, N3. fold (opt_byte d l) in N1, N2, N3.
+    cbn [app]. rewrite decode_options_cons. rewrite N1, N2, N3.
+    rewrite <- !app_assoc. rewrite Rd. cbn [bind]. rewrite Rl. cbn [bind].
+    replace (blen (v ++ r ++ payload_tail pl) <? blen v) with false by (rewrite blen_app; pose proof (blen_nonneg (r ++ payload_tail pl)); lia).
+    rewrite bto_app, bfrom_app.
+    replace (prev + (num - prev)) with num by lia.
+    rewrite (IH num r pl f Hr) by (cbn [length] in Hf; lia). reflexivity.
+Qed.
+Lemma encode_options_length os : forall prev e, encode_options prev os = Ok e -> (length os <= length e)%nat.
+Proof.
+  induction os as [|[num v] rest IH]; intros prev e He; [cbn; lia|].
+  rewrite encode_options_cons in He.
+  apply bind_ok_inv in He as [[d dext] [Hd He]]. apply bind_ok_inv in He as [[l lext] [Hl He]].
+  apply bind_ok_inv in He as [r [Hr He]]. injection He as <-. apply IH in Hr. cbn [length]. rewrite !app_length. lia.
+Qed.
+
+(* parsing the plaintext of a message gives back code, inner options and payload *)
+Theorem plaintext_roundtrip c os pl pt pm seqno : plaintext_of c os pl = Ok pt ->
+  exists um, unprotect_finish pm pt seqno = Ok um /\ u_code um = c /\ u_opts um = del_opt OPT_OBSERVE os /\ u_payload um = pl /\
+    u_observe um =
+      (let outer_observe := observe_value (opts pm) in
+       if is_request c then match outer_observe with Some 0 => observe_value os | _ => None end
+       else match outer_observe with Some _ => Some (match seqno with None => -1 | Some n => n end) | None => observe_value os end).
+Proof.
+  unfold plaintext_of. destruct ((c <? 0) || (255 <? c)); [discriminate|].
+  intros H. apply bind_ok_inv in H as [e [He H]]. inv H.
+  fold (payload_tail pl). unfold unprotect_finish.
+  rewrite bget_cons0. cbn [bind]. change (bfrom (c :: e ++ payload_tail pl) 1) with (e ++ payload_tail pl).
+  rewrite (options_roundtrip os 0 e pl) by (try exact He; apply encode_options_length in He; cbn [length]; rewrite app_length; lia).
+  cbn [bind]. eexists. split; [reflexivity|]. cbn [u_code u_opts u_payload u_observe]. repeat split; reflexivity.
+Qed.
+
+(* ================================================================== round trip *)
+
+(* ------------------------------------------------------------------ small facts used by the round trip *)
+Lemma find_filter_app {A} (p q : A -> bool) os x t : p x = true -> (forall y, q y = true -> p y = false) ->
+  find p (filter q os ++ x :: t) = Some x.
+Proof.
+  intros Hx Hq. induction os as [|y os IH]; cbn [filter app find]; [rewrite Hx; reflexivity|].
+  destruct (q y) eqn:E; [|exact IH]. cbn [app find]. rewrite (Hq y E). exact IH.
+Qed.
+Lemma get_opt_add_oscore os od : get_opt OPT_OSCORE (add_oscore os od) = Some od.
+Proof.
+  unfold get_opt, add_oscore. cbn [app]. rewrite find_filter_app; [reflexivity|cbn; reflexivity|].
+  intros y Hy. cbn in *. unfold OPT_OSCORE in *. lia.
+Qed.
+
+Lemma lstrip0_pad p : zeros (blen p - blen (lstrip0 p)) ++ lstrip0 p = p.
+Proof.
+  induction p as [|x p IH]; [reflexivity|]. cbn [lstrip0].
+  destruct x; try (replace (blen (_ :: p) - blen (_ :: p)) with 0 by lia; reflexivity).
+  rewrite blen_cons. assert (Hle : blen (lstrip0 p) <= blen p).
+  { clear IH. induction p as [|y p IHp]; [cbn; lia|]. cbn [lstrip0]. destruct y; rewrite ?blen_cons; try lia. }
+  pose proof (blen_nonneg (lstrip0 p)).
+  unfold zeros in *. replace (Z.to_nat (1 + blen p - blen (lstrip0 p))) with (S (Z.to_nat (blen p - blen (lstrip0 p)))) by lia.
+  cbn [repeat app]. rewrite IH. reflexivity.
+Qed.
+Lemma lstrip0_nil p : lstrip0 p = [] -> p = zeros (blen p).
+Proof. intros H. pose proof (lstrip0_pad p) as P. rewrite H in P. rewrite app_nil_r in P. change (blen (@nil Z)) with 0 in P. rewrite Z.sub_0_r in P. symmetry. exact P. Qed.
+Lemma shorten_piv_pad p : blen p = NONCE_PIV_BYTES -> zeros (NONCE_PIV_BYTES - blen (shorten_piv p)) ++ shorten_piv p = p.
+Proof.
+  intros Hl. unfold shorten_piv. destruct (lstrip0 p) as [|x s] eqn:E.
+  - apply lstrip0_nil in E. rewrite E, Hl. reflexivity.
+  - rewrite <- E. rewrite <- Hl. apply lstrip0_pad.
+Qed.
+Lemma shorten_piv_len p : blen p = NONCE_PIV_BYTES -> 1 <= blen (shorten_piv p) <= NONCE_PIV_BYTES.
+Proof.
+  intros Hl. pose proof (shorten_piv_pad p Hl) as P. apply (f_equal blen) in P. rewrite blen_app, blen_zeros in P.
+  unfold shorten_piv in *. destruct (lstrip0 p) as [|x s]; [cbn; unfold NONCE_PIV_BYTES; lia|].
+  rewrite blen_cons in *. pose proof (blen_nonneg s). lia.
+Qed.
+Lemma lstrip0_ok p : bytes_ok p = true -> bytes_ok (lstrip0 p) = true.
+Proof. induction p as [|x p IH]; [reflexivity|]. intros H. cbn [lstrip0]. destruct x; try exact H. apply IH. rewrite bytes_ok_cons in H. apply andb_prop in H as [_ H]. exact H. Qed.
+Lemma shorten_piv_ok p : bytes_ok p = true -> bytes_ok (shorten_piv p) = true.
+Proof. intros H. unfold shorten_piv. pose proof (lstrip0_ok p H). destruct (lstrip0 p); [reflexivity|assumption]. Qed.
+Lemma construct_nonce_short civ p id iv : blen p = NONCE_PIV_BYTES ->
+  construct_nonce civ (shorten_piv p) id iv = construct_nonce civ p id iv.
+Proof.
+  intros Hl. unfold construct_nonce, nonce_components. rewrite (shorten_piv_pad p Hl).
+  replace (NONCE_PIV_BYTES - blen p) with 0 by lia. reflexivity.
+Qed.
+
+(* what protect does for a request *)
+Lemma protect_request_inv E c m kc c' r' pm rid' : is_request (code m) = true ->
+  protect E c m None kc = (c', r', Ok (pm, rid')) ->
+  exists full nonce pt od,
+    blen full = NONCE_PIV_BYTES /\ bytes_ok full = true /\
+    construct_nonce (common_iv c) full (sender_id c) (alg_iv_bytes (c_alg c)) = Ok nonce /\
+    plaintext_of (code m) (inner_opts m) (payload m) = Ok pt /\
+    rid_kid rid' = sender_id c /\ rid_piv rid' = shorten_piv full /\
+    compress {| u_piv := Some (shorten_piv full); u_kid := Some (sender_id c);
+                u_kid_context := match kc with KcDefault => id_context c | KcOff => None | KcBytes b => Some b end; u_group := false |} = Ok od /\
+    (code pm = CODE_POST \/ code pm = CODE_FETCH) /\ opts pm = add_oscore (outer_opts_of m) od /\
+    payload pm = enc E (sender_key c) nonce (build_encrypt0_structure (extract_external_aad (c_alg c) rid')) pt.
+Proof.
+  intros Hreq P. apply protect_inv in P as (om & pt & ns & n & pv & up & _ & S & N & -> & F).
+  apply split_message_inv in S as (oc & C & T & ->).
+  unfold outer_code_of in C. rewrite Hreq in C.
+  assert (Hoc : oc = CODE_POST \/ oc = CODE_FETCH) by (inv C; destruct (get_opt OPT_OBSERVE (opts m)); auto). clear C.
+  unfold protect_nonce in N.
+  destruct (new_sequence_number c) as [[c1 seqno]|e] eqn:Hseq; [|inv N].
+  inv N. rename H2 into N. apply bind_ok_inv in N as [[n0 pv0] [B N]]. inv N.
+  unfold build_new_nonce in B. apply bind_ok_inv in B as [full [Hfull B]]. apply bind_ok_inv in B as [nn [Hn B]]. inv B.
+  unfold to_bytes_big in Hfull. destruct ((seqno <? 0) || (2 ^ (8 * PIV_FULL_BYTES) <=? seqno)); [discriminate|]. inv Hfull.
+  unfold protect_finish in F. rewrite Hreq in F. cbn [code] in F.
+  apply bind_ok_inv in F as [[rid0 u0] [Hh F]]. apply bind_ok_inv in Hh as [cs [_ Hh]]. inv Hh.
+  apply bind_ok_inv in F as [od [Hc F]]. inv F. cbn [code opts payload rid_kid rid_piv].
+  exists (to_bytes_big_n (Z.to_nat PIV_FULL_BYTES) seqno), n, pt, od.
+  split; [rewrite blen_tbn; reflexivity|]. split; [apply to_bytes_big_n_ok|].
+  repeat split; auto.
+Qed.
+
+Definition matched (cA cB : ctx) : Prop :=
+  recipient_key cB = sender_key cA /\ recipient_id cB = sender_id cA /\ common_iv cB = common_iv cA /\
+  c_alg cB = c_alg cA /\ id_context cB = id_context cA.
+
+(* a protected request, given to the matching context while its Partial IV is fresh, yields the original code,
+   class-E options and payload *)
+Theorem request_roundtrip E cA cB m cA' r' pm ridA w : ideal E -> matched cA cB ->
+  is_request (code m) = true ->
+  protect E cA m None KcDefault = (cA', r', Ok (pm, ridA)) ->
+  recipient_replay_window cB = Some w -> Proofs.C12.Inv w ->
+  Verif.Model.C12.seen w (from_bytes_big (rid_piv ridA)) = false ->
+  alg_tag_bytes (c_alg cB) + 1 <= blen (payload pm) ->
+  exists cB' um ridB,
+    unprotect E cB pm None = (cB', Ok (um, ridB)) /\
+    u_code um = code m /\ u_opts um = del_opt OPT_OBSERVE (inner_opts m) /\ u_payload um = payload m /\
+    u_observe um = match observe_value (opts pm) with Some 0 => observe_value (inner_opts m) | _ => None end /\
+    rid_kid ridB = rid_kid ridA /\ rid_piv ridB = rid_piv ridA /\ can_reuse_nonce ridB = true /\
+    exists w', recipient_replay_window cB' = Some w' /\ Verif.Model.C12.seen w' (from_bytes_big (rid_piv ridA)) = true.
+Proof.
+  intros (Hde & _ & _) (Mk & Mid & Mciv & Malg & Mctx) Hreq P Hw Hinv Hfresh Hlen.
+  apply (protect_request_inv _ _ _ _ _ _ _ _ Hreq) in P as (full & nonce & pt & od & Lf & Bf & Hn & Hpt & Rk & Rp & Hc & Hcode & Hopts & Hpay).
+  assert (Hplen : 1 <= blen (shorten_piv full) <= NONCE_PIV_BYTES) by (apply shorten_piv_len; exact Lf).
+  assert (Hu : uncompress od = Ok {| u_piv := Some (shorten_piv full); u_kid := Some (sender_id cA); u_kid_context := id_context cA; u_group := false |}).
+  { apply compress_uncompress; [|exact Hc]. split; cbn [u_piv u_kid_context].
+    - unfold PIVSZ_MAX, NONCE_PIV_BYTES in *. lia.
+    - unfold compress in Hc. cbn [u_piv u_kid u_kid_context u_group] in Hc.
+      destruct (blen (shorten_piv full) >? COMPRESSION_BITS_N); [discriminate|].
+      destruct (id_context cA) as [kc|]; [|exact I]. cbn [bind] in Hc.
+      destruct (blen kc >? KID_CONTEXT_MAX) eqn:Ek; [discriminate|]. lia. }
+  assert (Hseq : 0 <= from_bytes_big (shorten_piv full)) by (apply from_bytes_big_nonneg, shorten_piv_ok; exact Bf).
+  rewrite Rp in Hfresh.
+  destruct (Proofs.C12.strike_out_spec w _ Hinv Hseq) as [[Hs _]|[_ [w' [Hs [_ [_ [_ [Hseen' _]]]]]]]]; [congruence|].
+  unfold unprotect, unprotect_verify.
+  assert (Hnr : is_response (code pm) = false) by (destruct Hcode as [-> | ->]; reflexivity).
+  rewrite Hnr. cbn [Bool.eqb massert bind].
+  rewrite Hopts, get_opt_add_oscore, Hu. cbn [bind u_piv u_kid u_kid_context u_group].
+  rewrite Mctx. replace (opt_beqb (match id_context cA with Some x => Some x | None => id_context cA end) (id_context cA)) with true
+    by (destruct (id_context cA); cbn; [rewrite beqb_refl|]; reflexivity).
+  rewrite Mid, beqb_refl. cbn [negb]. rewrite Hw.
+  rewrite (Proofs.C12.is_valid_spec w _ Hinv Hseq), Hfresh. cbn [bind negb].
+  assert (Hcs : exists cs, code_style_from_request (code pm) = Ok cs) by (unfold code_style_from_request; destruct Hcode as [-> | ->]; cbn; eauto).
+  destruct Hcs as [cs Hcs]. rewrite Hcs. cbn [bind].
+  replace (blen (payload pm) <? alg_tag_bytes (c_alg cB) + 1) with false by lia.
+  rewrite Mciv, Malg, construct_nonce_short, Hn by exact Lf. cbn [bind].
+  rewrite Mk, Hpay.
+  replace (extract_external_aad (c_alg cA) {| rid_kid := sender_id cA; rid_piv := shorten_piv full; can_reuse_nonce := true; code_style := cs |})
+    with (extract_external_aad (c_alg cA) ridA) by (unfold extract_external_aad; cbn [rid_kid rid_piv]; rewrite Rk, Rp; reflexivity).
+  rewrite Hde. rewrite Hs. cbn [bind].
+  destruct (plaintext_roundtrip _ _ _ _ pm (Some (from_bytes_big (shorten_piv full))) Hpt) as (um & Hfin & U1 & U2 & U3 & U4).
+  rewrite Hfin. cbn [bind].
+  eexists _, _, _. split; [reflexivity|]. cbn [rid_kid rid_piv can_reuse_nonce].
+  rewrite Hreq in U4. cbv zeta in U4.
+  split; [exact U1|]. split; [exact U2|]. split; [exact U3|]. split; [rewrite <- Hopts; exact U4|].
+  split; [congruence|]. split; [congruence|]. split; [reflexivity|].
+  exists w'. cbn [recipient_replay_window set_window]. split; [reflexivity|]. rewrite Rp. exact Hseen'.
+Qed.
+
+Lemma uncompress_nil : uncompress [] = Ok {| u_piv := None; u_kid := None; u_kid_context := None; u_group := false |}.
+Proof. reflexivity. Qed.
+(* the first response to a request (the request's nonce is reused, the OSCORE option is empty), unprotected by the requester with the
+   identifiers of that request: original code, options and payload *)
+Theorem response_roundtrip E cS cC m rS rC cS' r' pm ridS : ideal E ->
+  recipient_key cC = sender_key cS -> common_iv cC = common_iv cS -> c_alg cC = c_alg cS ->
+  is_response (code m) = true -> responses_send_kid cS = false ->
+  can_reuse_nonce rS = true -> rid_kid rC = rid_kid rS -> rid_piv rC = rid_piv rS ->
+  (snd (code_style rS) = CODE_CHANGED \/ snd (code_style rS) = CODE_CONTENT) ->
+  protect E cS m (Some rS) KcDefault = (cS', r', Ok (pm, ridS)) ->
+  alg_tag_bytes (c_alg cC) + 1 <= blen (payload pm) ->
+  exists um,
+    unprotect E cC pm (Some rC) = (cC, Ok (um, rC)) /\
+    u_code um = code m /\ u_opts um = del_opt OPT_OBSERVE (opts m) /\ u_payload um = payload m /\
+    u_observe um = observe_value (opts m) /\
+    opts pm = [(OPT_OSCORE, [])] /\ can_reuse_nonce ridS = false.
+Proof.
+  intros (Hde & _ & _) Mk Mciv Malg Hresp Hsk Hreuse Rk Rp Hstyle P Hlen.
+  assert (Hnreq : is_request (code m) = false).
+  { unfold is_response, is_request in *. destruct (1 <=? code m) eqn:E1, (code m <? 32) eqn:E2, (64 <=? code m) eqn:E3; cbn in *; try reflexivity; try discriminate; lia. }
+  apply protect_inv in P as (om & pt & ns & n & pv & up & _ & S & N & -> & F).
+  apply split_message_inv in S as (oc & C & T & ->).
+  unfold outer_code_of in C. rewrite Hnreq in C. injection C as <-.
+  unfold protect_nonce, get_reusable_kid_and_piv in N. rewrite Hreuse in N. injection N as <- <- N.
+  apply bind_ok_inv in N as [nn [Hn N]]. injection N as <- <- <-.
+  unfold protect_finish in F. rewrite Hnreq, Hsk in F. cbn [bind] in F.
+  unfold compress in F. cbn [u_piv u_kid u_kid_context u_group blen length Z.of_nat] in F.
+  change (0 >? COMPRESSION_BITS_N) with false in F. cbn [bind Z.eqb app] in F. injection F as <- <-.
+  unfold outer_opts_of. rewrite Hnreq, Hresp. cbn [app code opts payload].
+  change (add_oscore [] []) with [(OPT_OSCORE, @nil Z)].
+  unfold inner_opts in T. rewrite Hnreq in T.
+  destruct (plaintext_roundtrip _ _ _ _ {| code := snd (code_style rS); opts := [(OPT_OSCORE, [])]; payload := enc E (sender_key cS) nn
+              (build_encrypt0_structure (extract_external_aad (c_alg cS) {| rid_kid := rid_kid rS; rid_piv := rid_piv rS; can_reuse_nonce := false; code_style := code_style rS |})) pt |} None T)
+    as (um & Hfin & U1 & U2 & U3 & U4).
+  exists um. unfold unprotect, unprotect_verify. cbn [code opts payload] in *.
+  assert (Hr : is_response (snd (code_style rS)) = true) by (destruct Hstyle as [-> | ->]; reflexivity).
+  rewrite Hr. cbn [Bool.eqb massert bind].
+  unfold get_opt. cbn [find fst snd]. change (OPT_OSCORE =? OPT_OSCORE) with true. cbv iota. cbn [snd].
+  rewrite uncompress_nil.
+  cbn [bind u_piv u_kid u_kid_context u_group].
+  replace (opt_beqb (id_context cC) (id_context cC)) with true by (destruct (id_context cC); cbn; [rewrite beqb_refl|]; reflexivity).
+  rewrite beqb_refl. cbn [negb bind].
+  cbn [payload] in Hlen. replace (blen (enc E (sender_key cS) nn _ pt) <? alg_tag_bytes (c_alg cC) + 1) with false by lia.
+  rewrite Mciv, Malg, Rk, Rp, Hn. cbn [bind]. rewrite Mk.
+  replace (extract_external_aad (c_alg cS) rC) with (extract_external_aad (c_alg cS) {| rid_kid := rid_kid rS; rid_piv := rid_piv rS; can_reuse_nonce := false; code_style := code_style rS |})
+    by (unfold extract_external_aad; cbn [rid_kid rid_piv]; rewrite Rk, Rp; reflexivity).
+  rewrite Hde. cbn [bind]. rewrite Hfin. cbn [bind].
+  replace (set_window cC (recipient_replay_window cC)) with cC by (destruct cC; reflexivity).
+  split; [reflexivity|]. split; [exact U1|]. split; [exact U2|]. split; [exact U3|].
+  split; [|split; reflexivity].
+  rewrite U4. rewrite Hnreq. reflexivity.
+Qed.
